@@ -1,7 +1,16 @@
 (* GENERATED on every run by harness/pygen_c05.py from the source files of /repo named below - do not edit. *)
-From Coq Require Import List.
+From Coq Require Import List ZArith.
 From Verif Require Import Prelude Num Model.Raman.
 Import ListNotations.
+
+(* gnpy/core/elements.py: Roadm.set_roadm_paths matches the template SETPATHS of harness/pygen_c06.py: `if impairment_id is None:` the first
+   profile of the path type in library order (else the global impairment), `else:` the profile of that id or NetworkTopologyError *)
+Definition g_roadm_profile {A : Type} (profiles : list (Z * Z * A)) (global : A) (path_type : Z) (impairment_id : option Z) : res A :=
+  match impairment_id with
+  | None => fold_right (fun p acc => let '(_, t, a) := p in if Z.eqb t path_type then Ok a else acc) (Ok global) profiles
+  | Some i => fold_right (fun p acc => let '(j, _, a) := p in if Z.eqb j i then Ok a else acc)
+                         (Err "NetworkTopologyError:impairment-profile-id"%string) profiles
+  end.
 
 Section FiberGen.
 Context {N : Num}.
@@ -47,6 +56,14 @@ Definition g_ramanfiber_power_db (con_in att_in con_out span_att_db p : T) : T :
 (* gnpy/core/elements.py: RamanFiber.propagate, `chromatic_dispersion += self.chromatic_dispersion(frequency)` and `latency += params.latency` (template) *)
 Definition g_ramanfiber_cd_lat_update (cd lat span_cd span_lat : T) : T * T :=
   (cd + span_cd, lat + span_lat).
+
+(* gnpy/core/elements.py: Roadm.propagate, `spectral_info.pmd = sqrt(H_pmd)` for one channel (impairment = the value of the configured profile) *)
+Definition g_roadm_pmd_update (x impairment : T) : T :=
+  nsqrt ((nsq x) + (nsq impairment)).
+
+(* gnpy/core/elements.py: Roadm.propagate, `spectral_info.pdl = sqrt(H_pdl)` for one channel (impairment = the value of the configured profile) *)
+Definition g_roadm_pdl_update (x impairment : T) : T :=
+  nsqrt ((nsq x) + (nsq impairment)).
 
 (* gnpy/core/elements.py: Fiber.pmd *)
 Definition g_fiber_pmd (pmd_coef length : T) : T :=
